@@ -346,6 +346,10 @@ def gen_instance(rng, s, root, depth=6):
             for d in (-1, 0, 1):
                 cands.append(int(b) + d if float(b) == int(b) else b + d)
         cands += [lo, hi, (lo + hi) / 2, int((lo + hi) // 2)]
+        import math
+        for b in (lo, hi):
+            # the integers next to a fractional bound (either sign)
+            cands += [math.floor(b), math.ceil(b), math.floor(b) - 1, math.ceil(b) + 1]
         m = s.get("multipleOf")
         if m:
             cands += [m * k for k in range(int(lo // m) - 1, int(lo // m) + 4)] + [m * int(hi // m)]
